@@ -63,6 +63,9 @@ Scenario* find_scenario(const std::string& id)
 static std::vector<std::string> g_known_signatures;
 const std::vector<std::string>& known_signatures() { return g_known_signatures; }
 
+namespace { WarmUp g_warm_up = nullptr; }
+void set_warm_up(WarmUp f) { g_warm_up = f; }
+
 void breadcrumb(const char* text)
 {
    // keep only the latest breadcrumb (stderr of a worker is a regular file; harmless elsewhere)
@@ -578,6 +581,36 @@ bool load_replay(const std::string& path, Plan& plan, std::string& expected_cls,
    return true;
 }
 
+// Once per process, before its first run.  A probe child goes first: if the warm-up kills it (a broken library), the
+// parent does without, and the runs themselves report what is wrong.
+void warm_up_once()
+{
+   static bool done = false;
+   if (done or g_warm_up == nullptr) return;
+   done = true;
+   std::fflush(stdout);
+   pid_t pid = fork();
+   if (pid == 0) {
+      int nul = open("/dev/null", O_WRONLY);
+      if (nul >= 0) { dup2(nul, 1); dup2(nul, 2); close(nul); }
+      heap::reset(1, 0);
+      heap::set_owner(heap::process_owner);
+      try { g_warm_up(); } catch (...) { _exit(3); }
+      _exit(0);
+   }
+   int status = 0;
+   if (pid > 0) waitpid(pid, &status, 0);
+   if (pid < 0 or not (WIFEXITED(status) and WEXITSTATUS(status) == 0)) {
+      std::printf("note: the warm-up run did not complete in a probe child; runs start without it\n");
+      return;
+   }
+   heap::reset(1, 0);
+   heap::set_owner(heap::process_owner);
+   try { g_warm_up(); } catch (...) { }
+   g_sut_depth = 0;
+   heap::set_owner(0);
+}
+
 int cmd_replay(const std::string& path, bool verbose)
 {
    Plan plan;
@@ -588,6 +621,7 @@ int cmd_replay(const std::string& path, bool verbose)
    std::printf("replaying %s (%zu ops, seed %llu, flavour " SIM_FLAVOUR ")\n", path.c_str(), plan.ops.size(), (unsigned long long) plan.seed);
    for (size_t i = 0; i < plan.ops.size() and i < 200; ++i) std::printf("  op[%zu] %s\n", i, sc->describe(plan.ops[i]).c_str());
    std::string err;
+   warm_up_once();
    RunResult r = run_in_child(*sc, plan, 0, verbose, &err);
    if (r.verdict.kind != Verdict::Violation) {
       std::printf("NO-VIOLATION digest=%llu\n", (unsigned long long) r.digest);
@@ -665,6 +699,7 @@ int cmd_check(const Options& o0, const char* argv0)
    std::fflush(stdout);
 
    for (auto& k : load_known(o.known_path)) if (k.status == "known" and k.property == sc.id()) g_known_signatures.push_back(k.signature);
+   warm_up_once();
    BatchStats bs = run_batch(sc, o, nprologue, total, nworkers, budget);
    const double batch_s = seconds_since(t0);
    Report rep;
@@ -900,6 +935,7 @@ int cmd_determinism(const Options& o0, size_t n)
    const size_t nprologue = sc.prologue_count(o.tier);
    const size_t total = nprologue + n;
    o.no_recheck = true;
+   warm_up_once();
    std::map<size_t, uint64_t> ref;
    size_t mismatches = 0;
    int counts[] = { 1, 8, 16 };
